@@ -134,8 +134,32 @@ def make_stream(rng):
             sent[pos:pos] = [pre + a + post, pre + b + post, pre + a + post]
             template_len = None
             STATS["streams_with_a_crc32_colliding_readout_pair"] = STATS.get("streams_with_a_crc32_colliding_readout_pair", 0) + 1
+    if rng.random() < 0.03:
+        # two different check-summed readouts of equal length, equal first line and equal CRC16 (so equal end line), one after the other
+        from vf.ref import crc16 as _crc
+
+        ident = p1_ref.strict_ident(rng)[0]
+        pre = ident + b"\r\n\r\n1-0:1.8.0("
+        post = b"*kWh)\r\n!"
+        a = b"%010d" % rng.randrange(10**10)
+        target = _crc.crc16(pre + a + post)
+        state = _crc.crc16(pre)
+        for i in range(200000):
+            b = b"%010d" % ((i * 2654435761 + 12345) % 10**10)
+            if b != a and _crc.crc16(b + post, state) == target:
+                pos = rng.randrange(len(sent) + 1)
+                sent[pos:pos] = [pre + a + post + b"%04X\r\n" % target, pre + b + post + b"%04X\r\n" % target, pre + a + post + b"%04X\r\n" % target]
+                template_len = None
+                STATS["streams_with_a_crc16_colliding_readout_pair"] = STATS.get("streams_with_a_crc16_colliding_readout_pair", 0) + 1
+                break
     lead = b""
-    if rng.random() < 0.4:
+    if rng.random() < 0.08:
+        # the stream begins in the middle of a readout whose identification contains a '/' (e.g. '/ISK5MT382/1000'), cut right there
+        odd = b"/" + bytes(rng.choice(b"ABCDEFGHIJKLMNOPQRSTUVWXYZ") for _ in range(3)) + b"5MT382/" + bytes(rng.choice(b"0123456789") for _ in range(rng.randint(1, 8)))
+        other = p1_ref.build_readout(odd, [p1_gen.data_line(rng, ids) for _ in range(rng.choice((0, 1, 4)))])
+        lead = other[other.index(b"/", 1) :]
+        STATS["streams_that_begin_inside_an_identification_line_at_a_slash"] = STATS.get("streams_that_begin_inside_an_identification_line_at_a_slash", 0) + 1
+    elif rng.random() < 0.4:
         other = p1_gen.strict_readout(rng, ids, rng.choice((1, 5, 20)))
         lead = other[rng.randrange(1, len(other)) :]
     return lead, sent, template_len
